@@ -432,4 +432,41 @@ def dispatch (accs : List Acc) (k : Kernel) (tys : List Nat) (dynamic : Bool) : 
   | .ok none => .ok none
   | .ok (some a) => .ok (some (if a.streamer && !dynamic then a.name ++ "_stream" else a.name))
 
+/-! ## `SupportedKernel.is_same_kernel` (accelerators/dispatching.py) -/
+
+/-- `isinstance(kernel_op, self.kernel_type) and list(self.operand_types) == [*operand_types, *result_types]`:
+the kernel kind and the WHOLE element type list, result type included -/
+def isSameKernel (sk : Supported) (k : Kernel) (tys : List Nat) : Bool :=
+  sk.kind == k && sk.types == tys
+
+/-! ## `convert-tosa-to-kernel` (`RescaleClampPattern`) -/
+
+/-- a `tosa.rescale` (i32 input, constant parameters) as the pattern sees it -/
+structure TosaRescale where
+  outWidth : Nat                  -- element type of the rescale result
+  users : Nat                     -- number of uses of the rescale result
+  clamp : Option (Int × Int)      -- (min_val, max_val) of the tosa.clamp that is the single user, if it is one
+  inputZp : Int
+  outputZp : Int
+  multiplier : List Int
+  shift : List Int
+  doubleRound : Bool              -- rounding_mode == "DOUBLE_ROUND"
+  deriving DecidableEq, Repr
+
+/-- the `kernel.rescale` (parameters, result width) written in place of rescale (+ clamp); `none` = the
+pattern returns without rewriting. Without a clamp only i8 / i32 results are handled and the clamp range
+defaults to `value_range()` of the signless result type, `(-2^(w-1), 2^w)`, with `max // 2 - 1`. -/
+def tosaToKernel (t : TosaRescale) : Option (RescaleParams × Nat) :=
+  if t.users ≠ 1 then none
+  else
+    match t.clamp with
+    | some (lo, hi) =>
+      some (⟨t.inputZp, t.outputZp, t.multiplier, t.shift, hi, lo, t.doubleRound⟩, t.outWidth)
+    | none =>
+      if t.outWidth ≠ 8 ∧ t.outWidth ≠ 32 then none
+      else
+        let lo : Int := -(2 ^ (t.outWidth - 1) : Nat)
+        let hi : Int := ((2 ^ t.outWidth : Nat) : Int) / 2 - 1
+        some (⟨t.inputZp, t.outputZp, t.multiplier, t.shift, hi, lo, t.doubleRound⟩, t.outWidth)
+
 end SnaxVerif.Kernel
